@@ -256,6 +256,8 @@ def _r7(ctx):
 def _r2(ctx, M, cg):
     P = ctx.P
     inserts = [s for s in M.lease_sql() if s.stmt["kind"] == "insert"]
+    ctx.check(len(inserts) <= 1, "R4", "single-lease-writer", "", "exactly one statement inserts into `leases` (found %d: %s): a second writer "
+              "is outside everything this property's rules say about the writer" % (len(inserts), ", ".join(x.body.id for x in inserts)))
     if len(inserts) != 1:
         ctx.bad("R2", "writer-not-unique", "", "")
         return
